@@ -125,6 +125,13 @@ def cases(rng, tier):
                 same = H.certified_hnf(a, m)[0] == H.certified_hnf(b, m)[0]; ptag = 'control-undecided'
         out.append(Case('hnf_new_pair', line('hnf_new_pair', a, b), oracle=H.o_pair(a, b, same), always_oracle=(not same),
                         nontrivial=nontriv(a), tag='pair-' + ptag))
+    # ---- entries at the machine-word boundaries (+-2^31, 2^32, 2^63, 2^64, 2^127 and their neighbours) mixed with small ones
+    edge = [s_ * (2 ** e_ + d_) for e_ in (31, 32, 63, 64, 127) for d_ in (-1, 0, 1) for s_ in (1, -1)]
+    for _ in range(60 if not th else 600):
+        n = rng.randrange(1, 5); m = rng.randrange(1, 5)
+        a = [[rng.choice(edge) if rng.random() < 0.5 else rng.randrange(-3, 4) for _ in range(m)] for _ in range(n)]
+        out.append(Case('hnf_with_u', line('hnf_with_u', a), oracle=H.o_hu(a), always_oracle=True, nontrivial=nontriv(a), tag='word-boundary-entries'))
+        out.append(Case('hnf_determinant', line('hnf_determinant', a), oracle=H.o_det(a), always_oracle=True, nontrivial=nontriv(a), tag='word-boundary-entries'))
     # ---- lattices of DIFFERENT rank (negative controls for PartialEq): a sub-family of the generators, the zero module, and a
     # lattice against itself plus one independent vector; decided by the certified reference
     for tag, a in H.structured_mats(rng, 120 if not th else 1200, 5, [2, 4, 16]):
